@@ -892,7 +892,7 @@ func (r *runner) confirm(n *native) int {
 		final := base
 		if !ok {
 			// generic-position floats, discrete part unchanged
-			maxSeeds := 64
+			maxSeeds := 96
 			if v.V.Kind == "assert" && len(base.Floats) == 0 {
 				maxSeeds = 8 // nothing float-valued to vary
 			}
@@ -902,6 +902,9 @@ func (r *runner) confirm(n *native) int {
 				g.Seed = int(r.seed)*100 + s
 				if s > 32 {
 					g.Seed = -(int(r.seed)*100 + s) // extreme-position stream (values up to +-700)
+				}
+				if s > 64 {
+					g.Seed = 1000000 + int(r.seed)*100 + s // tiny-magnitude stream (values up to +-3e-9)
 				}
 				if try(g) {
 					ok, final = true, g
